@@ -108,7 +108,40 @@ func show(o object.Object) (s string) {
 	if o == nil {
 		return "<nil>"
 	}
+	// (printing is the harness's own act: a value with millions of paths - a
+	// few dozen arrays each holding the next one twice - is not printed)
+	budget := 200000
+	if !printable(o, &budget) {
+		return string(o.Type()) + ":<more than 200000 nested values>"
+	}
 	return string(o.Type()) + ":" + o.Inspect()
+}
+
+// printable walks a value as printing would and gives up when the budget is
+// spent.
+func printable(o object.Object, budget *int) bool {
+	*budget--
+	if *budget < 0 {
+		return false
+	}
+	switch v := o.(type) {
+	case *object.Array:
+		for _, e := range v.Elements {
+			if e != nil && !printable(e, budget) {
+				return false
+			}
+		}
+	case *object.Hash:
+		for _, p := range v.Pairs {
+			if p.Key != nil && !printable(p.Key, budget) {
+				return false
+			}
+			if p.Value != nil && !printable(p.Value, budget) {
+				return false
+			}
+		}
+	}
+	return true
 }
 
 func (h *Host) enter(name string, args []object.Object) {
